@@ -203,3 +203,35 @@ Definition plate_name (p : plate) : result Z :=
   | [] => Err 7
   | _ :: _ => Ok (plate_id p)
   end.
+
+(* ---- appended (gap review g5, C16 gap 2): the screen EVOLVES between two calls within a batch ----
+   The retrospective pipeline reveals the chosen plate before the next call (run_subsequent_batch_plate passes the
+   predecessor's advanced_screen.h5): the plates whose ids are in the batch ids become observed.  Definitions only. *)
+(* Screen.set_observed on the rows of the plate with id i *)
+Definition reveal (i : Z) (screen : list splate) : list splate :=
+  map (fun sp => if plate_id (fst sp) =? i then (fst sp, true) else sp) screen.
+Definition reveal_all (js : list Z) (screen : list splate) : list splate := fold_right reveal screen js.
+
+(* batch id lists produced by iterating select_next_plate while, between two calls, any plates whose ids are already in
+   the batch (e.g. the plate just chosen) may be revealed; the last index is the screen the next call will see *)
+Inductive sel_hist_reveal (k : Z) (screen0 : list splate) : list splate -> list Z -> Prop :=
+| selr_nil : sel_hist_reveal k screen0 screen0 []
+| selr_snoc screen ids scores el i js :
+    sel_hist_reveal k screen0 screen ids -> select_next k screen scores ids = Ok (el, Some i) ->
+    incl js (ids ++ [i]) ->
+    sel_hist_reveal k screen0 (reveal_all js screen) (ids ++ [i]).
+
+(* executable: as history_select, but after step n the chosen plate is revealed when the n-th flag says so *)
+Fixpoint history_select_reveal (k : Z) (screen : list splate) (batch_ids : list Z) (tables : list (list (Z * Z)))
+  (flags : list bool) : result (list (list Z * option Z)) :=
+  match tables with
+  | [] => Ok []
+  | sc :: rest =>
+      dor eo <- select_next k screen sc batch_ids;
+      match snd eo with
+      | None => Ok [eo]
+      | Some i =>
+          let screen' := if hd false flags then reveal i screen else screen in
+          dor tl <- history_select_reveal k screen' (batch_ids ++ [i]) rest (tl flags); Ok (eo :: tl)
+      end
+  end.
